@@ -7,7 +7,7 @@ from __future__ import unicode_literals
 
 import sys
 import os.path
-from glob import glob
+from glob import glob, escape
 from math import exp, log
 
 import numpy as np
@@ -323,7 +323,7 @@ def get_bs_cached(n, sigma=1.0, reg=0.0, correction=True, basis_dir='', dr=1.0,
                 best_n = sys.maxsize
                 largest_file = None
                 largest_n = 0
-                mask = os.path.join(basis_dir,
+                mask = os.path.join(escape(basis_dir),
                                     'basex_basis_*_{}.npy'.format(sigma))
                 for f in glob(mask):
                     f = os.path.basename(f)
@@ -476,7 +476,7 @@ def basis_dir_cleanup(basis_dir=''):
     if basis_dir is None:
         return
 
-    files = glob(os.path.join(basis_dir, 'basex_basis_*.npy'))
+    files = glob(os.path.join(escape(basis_dir), 'basex_basis_*.npy'))
     for fname in files:
         os.remove(fname)
 
